@@ -34,7 +34,9 @@ Dml ==   { InsertV("T1", << <<a, b>> >>) : a \in IV, b \in SV }
     \cup { UpdateA("T1", << [c |-> "A", e |-> Lit(v)] >>, CmpE("=", A1, L(w))) : v \in {I(0), I(2), NULL}, w \in {0, 1} }
     \cup { UpdateA("T1", << [c |-> "A", e |-> ArE("+", A1, L(1))] >>, NoExpr),
            UpdateA("T1", << [c |-> "B", e |-> Lit(S("ab"))] >>, CmpE("=", A1, L(1))),
-           UpdateA("T1", << [c |-> "A", e |-> L(1)] >>, IsNullE(A1, FALSE)) }
+           UpdateA("T1", << [c |-> "A", e |-> L(1)] >>, IsNullE(A1, FALSE)),
+           \* moves ONE of several rows that share an index key (the others must stay reachable through the index)
+           UpdateA("T1", << [c |-> "A", e |-> L(2)] >>, CmpE("=", B1, Lit(S("ab")))) }
     \cup { DeleteA("T1", w) : w \in { CmpE("=", A1, L(0)), CmpE("=", A1, L(1)), IsNullE(A1, FALSE), CmpE("=", B1, Lit(S("a"))), CmpE(">", A1, L(0)), NoExpr } }
     \cup { [a |-> "trunc", t |-> "T1"] }
 Ddl == IndexDefs \cup { [a |-> "di", n |-> d.n] : d \in IndexDefs } \cup { [a |-> "analyze", t |-> "T1"] }
